@@ -23,11 +23,11 @@ func init() {
 	run.Register(&run.Check{
 		ID:          "C03",
 		Level:       "fault_enumeration",
-		Cases:       func(tier string) int { return tierN(tier, 240, 2400) },
+		Cases:       func(tier string) int { return tierN(tier, 400, 4000) },
 		Run:         runC03,
 		CaseTimeout: 0,
 		Rule: "case = (small configuration so that files roll over, key universe, single-threaded history of 30-80 calls with explicit Flush, index GC, primary GC, Close and reopen). The directory is imaged at EVERY hook point reached inside Flush/GC/Close/Open calls (hooks sit before each file-system mutation) and after every call; between consecutive images torn variants are synthesised (appended regions cut at 1,2,3,4,5,7,8,12,13,middle,n-5..n-1 bytes and around every record boundary - thorough: every byte for regions <= 512 B; rewritten files emptied and cut). Every image/variant is recovered: OpenStore must succeed, every key must read durable-or-acknowledged state, then the store is used further (puts that roll the files current at the crash, flushes, 2 primary + 2 index GC cycles, Close, reopen) under the C01/C04 oracle with fsck. " +
-			"non-trivial iff the case produced images inside a Flush with pending updates AND inside a GC cycle or Close; distinct = distinct hash of (hook, variant kind, image content). Interleaved family (case index mod 8 == 7): crash states in which a flush AND a collector are both mid-way: a GC cycle (index or primary) is parked at one of its lock-free step points, a Flush with pending updates is started and parked at one of its own step points (pool swapped / before the log write / after it / between primary, index and freelist), the collector is released and runs to its end while the flush stays parked, then the flush finishes; only one of the two ever runs at a time, so the image taken at every hook point is a true point-in-time state; each is recovered under the same oracle",
+			"non-trivial iff the case produced images inside a Flush with pending updates AND inside a GC cycle or Close; distinct = distinct hash of (hook, variant kind, image content). Interleaved family (case index mod 4 == 3): crash states in which a flush AND a collector are both mid-way: a GC cycle (index or primary) is parked at one of its lock-free step points, a Flush with pending updates is started and parked at one of its own step points (pool swapped / before the log write / after it / between primary, index and freelist), the collector is released and runs to its end while the flush stays parked, then the flush finishes; only one of the two ever runs at a time, so the image taken at every hook point is a true point-in-time state; each is recovered under the same oracle",
 		Assumptions: []string{
 			"process-crash model: everything handed to the kernel survives, user-space buffers are lost; the store uses no mmap",
 			"crash points are those of the executed single-threaded histories (flusher not started, collectors idle)",
@@ -176,7 +176,7 @@ func writerOp(k string) bool {
 }
 
 func runC03(c run.Ctx) *core.CaseResult {
-	if c.Index%8 == 7 {
+	if c.Index%4 == 3 {
 		return runC03Interleaved(c)
 	}
 	cfg, u, ops, r := c03Case(c)
@@ -530,17 +530,37 @@ func runC03Interleaved(c run.Ctx) *core.CaseResult {
 	gcHook := c03GCHooksPrim[r.IntN(len(c03GCHooksPrim))]
 	if useIdx {
 		gcHook = c03GCHooksIdx[r.IntN(len(c03GCHooksIdx))]
+		if r.IntN(2) == 0 {
+			gcHook = "index.gc.reap.before-busy" // the decision point of index GC, most often
+		}
+	} else if r.IntN(3) == 0 {
+		gcHook = "mh.gc.freelist.before-mark"
 	}
 	flHook := c03FlushHooks[r.IntN(len(c03FlushHooks))]
+	if r.IntN(2) == 0 {
+		flHook = []string{"index.flush.before-write", "store.commit.after-primary", "store.commit.after-index"}[r.IntN(3)] // between the stages of a commit
+	}
 	order := r.IntN(2) // 0: collector parked first; 1: flush parked first (only at hooks that hold no lock a cycle needs)
 	if order == 1 {
 		flHook = []string{"store.commit.after-primary", "store.commit.after-index"}[r.IntN(2)]
+	}
+	nth := 1 + r.IntN(6)
+	switch (c.Index / 4) % 3 {
+	case 0:
+		// pinned pair: index GC about to decide whether a record list is still referenced, while a flush has
+		// handed its new record lists to the writer but not written them yet
+		useIdx, gcHook, flHook, order, nth = true, "index.gc.reap.before-busy", "index.flush.before-write", 0, 1+r.IntN(3)
+	case 1:
+		if r.IntN(2) == 0 {
+			// pinned pair: primary GC about to apply a freelist entry while a commit is between primary and index
+			useIdx, gcHook, flHook, order, nth = false, "mh.gc.freelist.before-mark", []string{"store.commit.after-primary", "index.flush.before-write"}[r.IntN(2)], 0, 1+r.IntN(3)
+		}
 	}
 	rc.Tag = allow.freeze()
 	rc.Call = step
 	rc.SetEnabled(true)
 	rc.Capture("before-interleaving")
-	ggc := hookrt.NewGate(gcHook, 1+r.IntN(2), 3*time.Second)
+	ggc := hookrt.NewGate(gcHook, nth, 3*time.Second)
 	gfl := hookrt.NewGate(flHook, 1, 3*time.Second)
 	gcDone := make(chan struct{})
 	flDone := make(chan error, 1)
